@@ -34,7 +34,7 @@ SPEC = dict(
           "stdlib.NewECALFunctionAdapter (every numeric parameter kind echoing its argument, string/bool/list/map, "
           "interface and foreign parameter types, several parameters, zero-arg constants of every result kind incl. "
           "2^53 / MaxUint64, trailing error nil/non-nil/not last, six panicking bodies, variadic of several kinds, "
-          "defined types of primitive kind (time.Duration style) as parameter and result, two non-functions) + every function of the generated stdlib (enumerated from GetStdlibSymbols) x all "
+          "defined types of primitive kind (time.Duration style) as parameter and result, two non-functions) + 12 plugin functions (util.ECALPluginFunction: returning values, errors, panicking on a missing / NULL / wrong-kind argument, explicit panic, nil-map write, nil dereference) registered through the real stdlib.AddStdlibPluginFunc / LoadStdlibPlugin via the package's pluginTestLookup hook + every function of the generated stdlib (enumerated from GetStdlibSymbols) x all "
           "argument vectors over a 27-value universe {null,true,false,0,-1,1,1.5,127,128,255,256,2^31,2^53,1e300,NaN,"
           "'','a','1',[],[1],{},{'a':1},an ECAL function,-129,-0.5,2^63,-Inf}: Run called directly for length <=2 "
           "(quick) / <=3 (thorough) exhaustively and 3 / 4,5 sampled, through the interpreter (arguments as ECAL literals "
@@ -45,6 +45,7 @@ SPEC = dict(
     trusted_base=[
         "reflect's behaviour (Call panics, TypeOf, Kind) as modelled in Ecal.Bridge — tied by the correspondence run",
         "the go/ast extractor of the shape of Run (harness C19 -tool): defer of a closure calling recover() and assigning the named error result",
+        "the go/ast extractor of how AddStdlibPluginFunc stores a plugin function (an ECALFunctionAdapter around a func(...interface{}) (interface{}, error) closure); the harness sets stdlib.pluginTestLookup (unexported test hook) by go:linkname",
         "out-of-range float->integer conversion is implementation-defined in Go: the platform's value is handed to the model as an oracle and no exactness theorem covers it",
         "bodies of the generated stdlib (math.*) are assumed not to panic (checked by every run); math.jn/math.yn with |order| > 256 are left out (slow bodies)",
     ],
